@@ -176,7 +176,15 @@ fn run1<T: Flt>(src: &mut Src, obs: &mut Obs, qd: QDim, qrank: usize, dd: DDim, 
     let mut qshape = qshape;
     let axis_prefix = qshape.len() == 1 && src.chance(1, 8);
     let qlen = if axis_prefix { n + src.usize_in(0, 3) } else { product(&qshape) };
-    let qs = if axis_prefix {
+    let very_long = qshape.len() == 1 && !axis_prefix && lanes <= 6 && src.chance(1, 150);
+    let qlen = if very_long { src.usize_in(4097, 9000) } else { qlen };
+    let qs = if very_long {
+        // block-wise processing of long batches: a small pool of points, cycled
+        obs.class("query:very-long");
+        qshape = vec![qlen];
+        let pool = distinct_queries::<T>(src, &x, 16);
+        (0..qlen).map(|k| pool[k % pool.len()]).collect()
+    } else if axis_prefix {
         obs.class("query:axis-prefix");
         qshape = vec![qlen];
         let mut v: Vec<T> = x.iter().map(|&k| T::of(k)).collect();
@@ -254,6 +262,48 @@ fn run1<T: Flt>(src: &mut Src, obs: &mut Obs, qd: QDim, qrank: usize, dd: DDim, 
     obs.asserts += 1;
     if buf.iter().map(|v| v.key()).ne(r.v.iter().map(|v| v.key())) {
         fail!("into-vs-alloc", "interp_array_into differs from interp_array for query {}{:?} data {}{:?}", qd.name(), qshape, dd.name(), c.shape());
+    }
+    // the query is a view into the allocation the axis (a strided view) lives in
+    if qshape.len() == 1 && class != AxisClass::Index && src.chance(1, 8) {
+        let mut t = vec![T::zero(); 2 * n - 1];
+        for i in 0..n {
+            t[2 * i] = T::of(x[i]);
+            if i + 1 < n {
+                t[2 * i + 1] = T::of(x[i] + (x[i + 1] - x[i]) * 0.5);
+            }
+        }
+        if t.windows(2).all(|w| w[0] < w[1]) {
+            obs.class("query:aliases-axis-allocation");
+            let store = ndarray::Array1::from_vec(t);
+            let xview = store.slice(ndarray::s![..;2]);
+            let qalias = store.slice(ndarray::s![..n]);
+            let data_c = ArrayD::from_shape_vec(IxDyn(&c.shape()), c.data.iter().map(|&v| T::of(v)).collect()).unwrap();
+            let strat1 = c.strat1::<T>(false);
+            let res = crate::adapt::with_interp1_xview::<T, Result<(), Fail>>(xview.view(), &data_c, dd, &strat1, &mut |i| {
+                let arr = match catch(|| i.t_array(qalias.view().into_dyn(), qd)) {
+                    Ok(Some(Ok(a))) => a,
+                    Ok(Some(Err(e))) => fail!("in-range-rejected", "interp_array (query aliasing the axis allocation) -> {e}"),
+                    Ok(None) => return Ok(()),
+                    Err(p) => fail!("panic/interp_array", "interp_array with a query aliasing the axis allocation panicked: {p}"),
+                };
+                for k in 0..n {
+                    let single = match catch(|| i.t_interp(qalias[k])) {
+                        Ok(Ok(a)) => a,
+                        _ => fail!("in-range-rejected", "interp({:e}) failed", qalias[k].f()),
+                    };
+                    obs.asserts += 1;
+                    for l in 0..lanes {
+                        if arr.v[k * lanes + l].key() != single.v[l].key() {
+                            fail!("array-vs-interp/query-aliases-axis", "axis = every second element of an allocation, query = view of its first {n} elements: interp_array[{k}] lane {l} = {:e} but interp({:e}) = {:e}", arr.v[k * lanes + l].f(), qalias[k].f(), single.v[l].f());
+                        }
+                    }
+                }
+                Ok(())
+            });
+            if let Some(Ok(r)) = res {
+                r?;
+            }
+        }
     }
     // one offending element: every batch entry point must fail as a whole
     if qlen > 0 && src.chance(1, 3) {
